@@ -315,7 +315,13 @@ func (r recIBCModule) OnChanCloseConfirm(ctx sdk.Context, portID, channelID stri
 }
 func (r recIBCModule) OnRecvPacket(ctx sdk.Context, p channeltypes.Packet, relayer sdk.AccAddress) ibcexported.Acknowledgement {
 	r.s.note(ctx, "OnRecvPacket", p, relayer)
-	return channeltypes.NewResultAcknowledgement([]byte("ret-ack"))
+	switch r.s.mode {
+	case 0:
+		return channeltypes.NewErrorAcknowledgement(fmt.Errorf("ret-err-recv"))
+	case 1:
+		return channeltypes.NewResultAcknowledgement([]byte("ret-ack"))
+	}
+	return nil // asynchronous acknowledgement (what e.g. a packet-forwarding middleware below the orbiter answers)
 }
 func (r recIBCModule) OnAcknowledgementPacket(ctx sdk.Context, p channeltypes.Packet, ack []byte, relayer sdk.AccAddress) error {
 	r.s.note(ctx, "OnAcknowledgementPacket", p, ack, relayer)
@@ -518,6 +524,62 @@ func c07Callbacks(rep *Report, w *World, full bool) {
 				before = after
 			}
 		}
+	}
+	// OnRecvPacket for traffic that is NOT addressed to the orbiter, over a wrapped application that answers with an error
+	// acknowledgement, a success acknowledgement or NO acknowledgement (asynchronous — seed C07i): the answer comes back as it is
+	orbMemoV := Memo(w.FwdInternal(w.Bob), nil)
+	foreign := []channeltypes.Packet{
+		NewPkt("channel-0", denomUSDC, "5", w.Bob.String(), "").Packet(),
+		NewPkt("channel-0", denomUSDC, "5", w.Bob.String(), orbMemoV).Packet(),
+		NewPkt("channel-1", "uatom", "7", w.Dust.String(), "").Packet(),
+		mkPkt([]byte("not json"), "transfer", "channel-9", "transfer", "channel-1"),
+		mkPkt([]byte(`{"receiver":"`+w.Orb.String()+`"`), "transfer", "channel-7", "transfer", "channel-0"),
+		mkPkt(ftpd(defaultSender, "", ""), "transfer", "channel-7", "transfer", "channel-0"),
+	}
+	for pi, pk := range foreign {
+		for _, rel := range []sdk.AccAddress{nil, sdk.AccAddress(bytes.Repeat([]byte{9}, 20)), w.Orb} {
+			for mode := 0; mode < 3; mode++ {
+				sa.mode, sb.mode = mode, mode
+				sa.calls, sb.calls = sa.calls[:0], sb.calls[:0]
+				ca, cb := base.WithEventManager(sdk.NewEventManager()), base.WithEventManager(sdk.NewEventManager())
+				var ga, gb ibcexported.Acknowledgement
+				pan := ""
+				func() {
+					defer func() {
+						if r := recover(); r != nil {
+							pan = trunc(fmt.Sprint(r), 160)
+						}
+					}()
+					ga = mw.OnRecvPacket(ca, pk, rel)
+				}()
+				gb = recIBCModule{sb}.OnRecvPacket(cb, pk, rel)
+				rep.Count("evaluations", 1)
+				why := ""
+				switch {
+				case pan != "":
+					why = "the middleware panicked: " + pan
+				case (ga == nil) != (gb == nil):
+					why = fmt.Sprintf("acknowledgement %v, the wrapped application answered %v", ga, gb)
+				case ga != nil && !bytes.Equal(ga.Acknowledgement(), gb.Acknowledgement()):
+					why = fmt.Sprintf("acknowledgement %s, the wrapped application answered %s", ga.Acknowledgement(), gb.Acknowledgement())
+				case len(sa.calls) != 1 || sa.calls[0] != sb.calls[0]:
+					why = fmt.Sprintf("wrapped application saw %v, expected %v", sa.calls, sb.calls)
+				case fmt.Sprint(ca.EventManager().Events()) != fmt.Sprint(cb.EventManager().Events()):
+					why = "events differ from the wrapped application's"
+				}
+				if why != "" {
+					rep.Violate(Violation{Kind: "callback-not-passed-through", Group: "OnRecvPacket(foreign)", Sig: fmt.Sprintf("OnRecvPacket foreign#%d mode%d relayer=%v", pi, mode, rel),
+						Replay: mustJSON(map[string]any{"callback": "OnRecvPacket", "packet_data": string(pk.Data), "inner_answer_mode": mode}),
+						What:   fmt.Sprintf("OnRecvPacket for a packet not addressed to the orbiter (data %s), wrapped application answering in mode %d (0 error ack, 1 success ack, 2 none): %s", trunc(string(pk.Data), 100), mode, why)})
+				} else {
+					rep.Outcome("callback-passthrough-ok")
+					rep.Distinct(fmt.Sprintf("callback:OnRecvPacket(foreign#%d)/mode%d", pi, mode))
+				}
+			}
+		}
+	}
+	if after := w.StateKey(base); after != before {
+		rep.Violate(Violation{Kind: "callback-writes-state", Group: "OnRecvPacket(foreign)", Sig: "OnRecvPacket(foreign)", Replay: mustJSON("OnRecvPacket"), What: "OnRecvPacket for foreign traffic wrote to the stores although the wrapped application wrote nothing"})
 	}
 	rep.Extra["callbacks_enumerated_by_reflection"] = covered
 	rep.Extra["callback_argument_combinations"] = sizes
